@@ -104,7 +104,7 @@ end
 func init() {
 	register(&Prop{
 		ID:   "C17",
-		Rule: "request histories on pools of size (1,2),(1,3),(2,3),(2,4),(3,6): start request (healthy / rule error / panicking injected function / type fault outside the self-recovering constructs / missing name / store into a nil map / wrong key kind / out-of-range element store and read; every request also binds a local and writes its own map and slice) through any of the 24 pool execute methods, release the k-th outstanding request; up to max+4 outstanding, every request parks inside its rule on a Hold gate keyed by its id; oracle after every step: the number of requests parked inside rules equals min(max, outstanding) within the bound (waiters proceed, nothing lost) and never exceeds max, every finished request returned its own id (two in-flight requests on one instance would overwrite each other's injected object), a request never fails because the pool is busy, and after the history max requests park simultaneously again. 8% of the cases (2% in the thorough tier) are hand-over storms instead: max-1 requests stay inside their rule, the last instance is passed along a chain of 100-800 (thorough 1500) requests, each issued a generated number of spin iterations after its predecessor is let go (at most four storms at a time across the shard processes); every next request must enter its rule within the hang bound after the previous one returned and must return its own id. Non-trivial: at some point more than max requests are outstanding and a failing or panicking request finished before the final probe, or a storm of >= 300 hand-overs; distinct by case hash",
+		Rule: "request histories on pools of size (1,2),(1,3),(2,3),(2,4),(3,6): start request (healthy / rule error / panicking injected function / type fault outside the self-recovering constructs / missing name / store into a nil map / wrong key kind / out-of-range element store and read / a healthy request that injects its own function, map and slice under names and Go types of values the pool was constructed with; every request also binds a local and writes its own map and slice) through any of the 24 pool execute methods, release the k-th outstanding request; up to max+4 outstanding, every request parks inside its rule on a Hold gate keyed by its id; oracle after every step: the number of requests parked inside rules equals min(max, outstanding) within the bound (waiters proceed, nothing lost) and never exceeds max, every finished request returned its own id (two in-flight requests on one instance would overwrite each other's injected object), a request never fails because the pool is busy, and after the history max requests park simultaneously again. 8% of the cases (2% in the thorough tier) are hand-over storms instead: max-1 requests stay inside their rule, the last instance is passed along a chain of 100-800 (thorough 1500) requests, each issued a generated number of spin iterations after its predecessor is let go (at most four storms at a time across the shard processes); every next request must enter its rule within the hang bound after the previous one returned and must return its own id. Non-trivial: at some point more than max requests are outstanding and a failing or panicking request finished before the final probe, or a storm of >= 300 hand-overs; distinct by case hash",
 		New:  func() interface{} { return &C17Case{} },
 		Gen: func(t *rapid.T) interface{} {
 			c := &C17Case{}
@@ -141,7 +141,7 @@ func init() {
 				}
 				f := int64(0)
 				if pct(t, fmt.Sprintf("faulty%d", i), 40) {
-					f = int64(uni(t, fmt.Sprintf("fault%d", i), 1, 8))
+					f = int64(uni(t, fmt.Sprintf("fault%d", i), 1, 9))
 				}
 				c.Ops = append(c.Ops, C17Op{Kind: "start", Fault: f, Method: uni(t, fmt.Sprintf("m%d", i), 0, 23)})
 				out++
@@ -156,7 +156,20 @@ func init() {
 			}
 			h := newPoolHarness()
 			h.max = int(c.PoolMax)
-			p, err := engine.NewGenginePool(c.PoolMin, c.PoolMax, c.EM, c17Rules, h.apis())
+			// fault kind 9 is a healthy request that injects its own function, map and slice under
+			// the names (and with the Go types) of values the pool was constructed with; no rule
+			// uses those names
+			apis := h.apis()
+			apis["cb"] = func(v int64) int64 { return v }
+			apis["cbm"] = map[string]int64{"a": 1}
+			apis["cbs"] = []int64{1}
+			h.extraData = func(id, kind int64) map[string]interface{} {
+				if kind != 9 {
+					return nil
+				}
+				return map[string]interface{}{"cb": func(v int64) int64 { return v + id }, "cbm": map[string]int64{"id": id}, "cbs": []int64{id}}
+			}
+			p, err := engine.NewGenginePool(c.PoolMin, c.PoolMax, c.EM, c17Rules, apis)
 			if err != nil {
 				x.Violation("setup", "NewGenginePool: %v", err)
 				return
@@ -184,7 +197,7 @@ func init() {
 						x.Violation("foreign-id", "step %d: request %d got %v from its rule", step, r.id, v)
 						return false
 					}
-					if r.kind != 0 {
+					if r.kind != 0 && r.kind != 9 {
 						faultDone = true
 					}
 					return true
@@ -193,7 +206,7 @@ func init() {
 					x.Violation("request-panic", "step %d: request %d (%s, fault kind %d) panicked: %s", step, r.id, r.call.Method, r.kind, truncate(r.res.Panic, 200))
 					return false
 				}
-				if r.kind == 0 {
+				if r.kind == 0 || r.kind == 9 {
 					if r.res.Err != nil {
 						x.Violation("healthy-request-failed", "step %d: healthy request %d (%s) failed: %s", step, r.id, r.call.Method, truncate(r.res.Err.Error(), 300))
 						return false
@@ -230,7 +243,11 @@ func init() {
 					startEpoch[nextID] = epoch
 					startCleared[nextID] = cleared
 					call := fullCall(methods[op.Method%len(methods)], []string{"main", "aux"}, step)
-					h.start(nextID, op.Fault, []string{"who"}, call)
+					fault := op.Fault
+					if fault == 9 && call.Method == "ExecuteRulesWithSpecifiedEM" {
+						fault = 0 // that method injects at most two values
+					}
+					h.start(nextID, fault, []string{"who"}, call)
 					x.Class("method:" + call.Method)
 					if op.Fault != 0 {
 						x.Class(fmt.Sprintf("fault-kind:%d", op.Fault))
